@@ -260,6 +260,21 @@ impl IterativeQuery {
                 .map(|n| (n.id().to_string(), n.address().to_string()))
                 .collect(),
             responses: self.responses.len(),
+            response_items: self
+                .responses
+                .iter()
+                .map(|r| {
+                    fn hex(b: &[u8]) -> String {
+                        b.iter().map(|x| format!("{x:02x}")).collect()
+                    }
+                    match r {
+                        Response::Mutable(item) => format!("m:{}:{}", item.seq(), hex(item.value())),
+                        Response::Immutable(v) => format!("i:{}", hex(v)),
+                        Response::Peers(p) => format!("p:{}", p.len()),
+                        Response::SignedPeers(p) => format!("s:{}", p.len()),
+                    }
+                })
+                .collect(),
             votes,
         }
     }
